@@ -687,7 +687,7 @@ impl Monitor for C20 {
         let mut cfg = GenCfg::std(&['a', 'b', 'a', 'b', 'A', '\n', 'x', '\u{e9}']);
         cfg.props = false;
         for k in 0..n {
-            let ast = if k % 4 == 0 { gen_shortcut(&mut rng, &cfg) } else { gen_pattern(&mut rng, &cfg) };
+            let ast = if k % 4 <= 1 { gen_shortcut(&mut rng, &cfg) } else { gen_pattern(&mut rng, &cfg) };
             let size = ast.size();
             let fl = FLAG_SUBSETS[rng.below(FLAG_SUBSETS.len())];
             for _ in 0..2 {
